@@ -31,6 +31,7 @@ type in struct {
 	DstPort int    `json:"dst_port"`
 	Sock    string `json:"socket"`
 	AuthOpt string `json:"authenticator"`
+	HBH     bool   `json:"hop_by_hop_extension,omitempty"`
 	Mut     int    `json:"mutation"`
 }
 
@@ -94,7 +95,7 @@ func run(r *mc.Run, srvAuth bool, only *in) {
 			if i.L4 != "udp" {
 				payload = []byte("echo-payload-0123456789")
 			}
-			pk := &kit.Pkt{SrcIA: kit.CliIA, DstIA: kit.SrvIA, SrcHost: ch, DstHost: sh, Path: ps, L4: i.L4, SrcPort: 40123, DstPort: uint16(i.DstPort), Payload: payload, TrafficClass: 0x28}
+			pk := &kit.Pkt{SrcIA: kit.CliIA, DstIA: kit.SrvIA, SrcHost: ch, DstHost: sh, Path: ps, L4: i.L4, SrcPort: 40123, DstPort: uint16(i.DstPort), Payload: payload, TrafficClass: 0x28, HBH: i.HBH}
 			key := s.Daemon.HostHostKey(kit.SrvIA, kit.CliIA, sh.String(), ch.String())
 			macOK := false
 			expectSPI := false
@@ -268,6 +269,11 @@ func run(r *mc.Run, srvAuth bool, only *in) {
 								}
 								i := in{Auth: srvAuth, V6: v6, Path: p.String(), L4: l4, DstPort: port, Sock: sock, AuthOpt: ao}
 								try(i)
+								if l4 == "udp" || l4 == "scmp-echo" {
+									// the same packet with a hop-by-hop extension ahead of everything else
+									i.HBH = true
+									try(i)
+								}
 								if sampled < 2 && ao == "valid" {
 									r.Sample(i)
 									sampled++
@@ -394,6 +400,6 @@ func TestCheck(t *testing.T) {
 			}
 			return
 		}
-		r.Extra["rule"] = "runSCIONServer on the service port and the end-host port, DRKey fetcher present/absent: product of {IPv4, IPv6 hosts} x {empty, one-hop, SCION paths with 1-3 segments of 1-3 hops at the first/last/cross-over (thorough: every) position} x {UDP/NTP, SCMP echo, traceroute, error, unknown, other L4} x L4 destination port {service, 30041, other} x receiving socket x authenticator {absent, valid, wrong key, server SPI}; plus every single-bit flip of a verified request (2 paths x 2 families) and all ordered pairs of requests addressed to different local host addresses through one listener (one DRKey cache)"
+		r.Extra["rule"] = "runSCIONServer on the service port and the end-host port, DRKey fetcher present/absent: product of {IPv4, IPv6 hosts} x {empty, one-hop, SCION paths with 1-3 segments of 1-3 hops at the first/last/cross-over (thorough: every) position} x {UDP/NTP, SCMP echo, traceroute, error, unknown, other L4} x L4 destination port {service, 30041, other} x receiving socket x authenticator {absent, valid, wrong key, server SPI} x hop-by-hop extension {absent, present}; plus every single-bit flip of a verified request (2 paths x 2 families) and all ordered pairs of requests addressed to different local host addresses through one listener (one DRKey cache)"
 	})
 }
